@@ -7,6 +7,7 @@ import (
 	"errors"
 	"fmt"
 	"net"
+	"net/http"
 	"strings"
 	"sync"
 	"time"
@@ -242,6 +243,64 @@ func genC17(env *core.Env, emit func(core.Case)) {
 					Sample: map[string]any{"addr": addr, "require_ech": requireECH, "public_name": usePN, "caller_ech": callerECH, "caller_sni": callerSN, "script": script, "calls": len(calls), "result": result != "fail"}})
 				env.Count(fmt.Sprintf("calls%d", min(len(calls), 4)))
 			}
+		}
+	}
+	// the same Dialer reached through ech.Transport (which hands it an already resolved, filtered result):
+	// the list used for an address is still the one of the HTTPS record that produced the address
+	for _, requireECH := range []bool{false, true} {
+		for _, host := range []string{"ech.example", "mixed.example", "plain.example", "emptyech.example"} {
+			idx++
+			resolver, err := ech.NewResolver(srv.URL())
+			if err != nil {
+				panic(err)
+			}
+			type tcall struct {
+				addr string
+				sn   string
+				ech  []byte
+			}
+			var mu sync.Mutex
+			var calls []tcall
+			tr := ech.NewTransport()
+			tr.Resolver = resolver
+			tr.Dialer.RequireECH = requireECH
+			tr.Dialer.MaxConcurrency = 1
+			tr.Dialer.ConcurrencyDelay = time.Millisecond
+			tr.Dialer.DialFunc = func(ctx context.Context, network, a string, tc *tls.Config) (*tls.Conn, error) {
+				mu.Lock()
+				calls = append(calls, tcall{a, tc.ServerName, bytes.Clone(tc.EncryptedClientHelloConfigList)})
+				mu.Unlock()
+				return nil, errors.New("scripted dial error")
+			}
+			req, _ := http.NewRequest("GET", "https://"+host+"/", nil)
+			resp, rerr := tr.RoundTrip(req)
+			if resp != nil {
+				resp.Body.Close()
+			}
+			// which list belongs to which address (the zone above)
+			want := map[string][]byte{"10.9.0.3:443": listA, "10.9.0.4:443": listA, "10.9.0.5:443": listA, "10.9.0.4:8443": listB, "10.9.0.5:8443": listB}
+			w := ""
+			var ct []string
+			for _, c := range calls {
+				ct = append(ct, fmt.Sprintf("%s/%x", c.addr, c.ech))
+				if l, ok := want[c.addr]; ok && !bytes.Equal(c.ech, l) && w == "" {
+					w = fmt.Sprintf("attempt to %s made with ECH config list %x, the HTTPS record that produced the address has %x", c.addr, c.ech, l)
+				}
+				if requireECH && len(c.ech) == 0 && c.ech == nil && w == "" {
+					w = "RequireECH is set but DialFunc was called without an ECH config list (" + c.addr + ")"
+				}
+				if c.sn != host && w == "" {
+					w = "TLS server name " + c.sn + " is not the URL's host " + host
+				}
+			}
+			if host == "ech.example" && len(calls) == 0 && w == "" {
+				w = fmt.Sprintf("no attempt was made for %s (error: %v)", host, rerr)
+			}
+			emit(core.Case{Name: fmt.Sprintf("via-transport/%d", idx), Stream: "via-transport", Key: fmt.Sprintf("via-transport/%s/%v", host, requireECH),
+				Sig:    fmt.Sprintf("via-transport/%s/%v/%d", host, requireECH, len(calls)),
+				Ops:    []core.Op{{Kind: 'X', Note: "through Transport: the ECH list of an attempt is the one of the HTTPS record that produced its address; RequireECH respected; server name = URL host", Want: w}},
+				Sample: map[string]any{"host": host, "require_ech": requireECH, "calls": ct}})
+			env.Count("via-transport")
 		}
 	}
 	env.Exhaustive("all 16 combinations of RequireECH / PublicName / caller list / caller ServerName for every address form and zone shape (outcome scripts: all in the thorough tier, a third in the quick tier)")
